@@ -451,6 +451,47 @@ func main() {
 			}
 		}
 	}
+	// script-level glue (channel_methods.go): which methods of Channel each `Channel*Method.Call`
+	// invokes, in source order, whatever the receiver expression (aliases included)
+	api := map[string]bool{}
+	for _, n := range names {
+		api[n] = true
+	}
+	wrappers := map[string][]string{}
+	var wnames []string
+	for _, fn := range fileNames {
+		for _, d := range files[fn].Decls {
+			fd, ok := d.(*ast.FuncDecl)
+			if !ok || fd.Body == nil || fd.Name.Name != "Call" || fd.Recv == nil || len(fd.Recv.List) == 0 {
+				continue
+			}
+			rt := strings.TrimPrefix(ex.TypeString(fd.Recv.List[0].Type), "*")
+			if !strings.HasPrefix(rt, "Channel") || !strings.HasSuffix(rt, "Method") {
+				continue
+			}
+			var calls []string
+			ast.Inspect(fd.Body, func(n ast.Node) bool {
+				switch x := n.(type) {
+				case *ast.CallExpr:
+					if sel, ok := x.Fun.(*ast.SelectorExpr); ok && api[sel.Sel.Name] {
+						calls = append(calls, sel.Sel.Name)
+					}
+				case *ast.GoStmt:
+					calls = append(calls, "go")
+				case *ast.ForStmt, *ast.RangeStmt:
+					calls = append(calls, "loop")
+				}
+				return true
+			})
+			wrappers[rt] = calls
+			wnames = append(wnames, rt)
+		}
+	}
+	sort.Strings(wnames)
+	var wl []string
+	for _, n := range wnames {
+		wl = append(wl, fmt.Sprintf("(%s, [%s])", ex.LeanString(n), quoteAll(wrappers[n])))
+	}
 	var sb strings.Builder
 	sb.WriteString("import Model.Chan\n/-! Sync-relevant events of the methods of `Channel` (std/channel), in source order. -/\nnamespace Generated.C09ChanLocks\nopen Model.Chan\n\n")
 	fmt.Fprintf(&sb, "/-- types of the fields mu, closed, done, channel -/\ndef fields : List FieldTy := %s\n\n", leanList([]string{fieldTy(fields["mu"]), fieldTy(fields["closed"]), fieldTy(fields["done"]), fieldTy(fields["channel"])}, "."))
@@ -459,6 +500,7 @@ func main() {
 		fmt.Fprintf(&sb, "def %s : List Ev := %s\n\n", m.lean, leanList(methods[m.goName], "."))
 	}
 	fmt.Fprintf(&sb, "/-- sync-relevant events in any other method of Channel (method:event) -/\ndef others : List String := [%s]\n\n", quoteAll(others))
+	fmt.Fprintf(&sb, "/-- per script-level method object (channel_methods.go): the Channel methods its Call invokes, in source order -/\ndef wrappers : List (String × List String) := [%s]\n\n", strings.Join(wl, ", "))
 	fmt.Fprintf(&sb, "def shapeChanged : List String := [%s]\n\nend Generated.C09ChanLocks\n", quoteAll(shape))
 	if err := ex.WriteIfChanged(a.Out, "C09ChanLocks.lean", sb.String()); err != nil {
 		fmt.Fprintln(os.Stderr, "c09 extract:", err)
